@@ -202,6 +202,11 @@ func IsEngine() bool { return false }
 func Spawned() int     { return 0 }
 func RunSpawned(i int) {}
 
+// NoReceiver declares that no goroutine receives from ch from now on: under the
+// engine a send on it only completes into free buffer space (an unbuffered send
+// is never ready).  Natively a no-op (the harness simply does not receive).
+func NoReceiver(ch any) {}
+
 // LockState: 0 free, -1 write-held, n>0 read-held n times (engine only).
 func LockState(l any) int { return 0 }
 
